@@ -819,7 +819,8 @@ class TrueTypeFont:
                     for c in range(entcount):
                         gid = cast(Tuple[int], struct.unpack(">H", fp.read(2)))[0]
                         if gid:
-                            gid += delta
+                            # idDelta is added modulo 65536
+                            gid = (gid + delta) & 0xFFFF
                         char2gid[first + c] = gid
             elif fmttype == 4:
                 (segcount, _1, _2, _3) = cast(
